@@ -39,6 +39,20 @@ theorem pendingOf_queue (x : Loop) (r : Bool) (c : List Nat) :
 
 theorem pendingOf_nil (r : Bool) (c : List Nat) : pendingOf { running := r, queue := [], conns := c } = [] := rfl
 
+/-! ## `reorder`: a pending registration moves to the head of the queue of its loop -/
+
+/-- the descriptors waiting in the reordered queue are a permutation of those that waited before -/
+theorem pendingOf_reorder (x : Loop) (fd : Nat) (hm : Task.register fd ∈ x.queue) :
+    (pendingOf { x with queue := Task.register fd :: x.queue.erase (Task.register fd) }).Perm (pendingOf x) :=
+  (List.perm_cons_erase hm).symm.filterMap _
+
+/-- the reordered queue holds the same registrations -/
+theorem mem_reorder (q : List Task) (fd : Nat) (hm : Task.register fd ∈ q) (t : Task)
+    (ht : t ∈ Task.register fd :: q.erase (Task.register fd)) : t ∈ q := by
+  rcases List.mem_cons.mp ht with e | ht
+  · rw [e]; exact hm
+  · exact List.mem_of_mem_erase ht
+
 /-! ## what each step does, as a relation on the observed quantities -/
 
 /-- the observed quantities of a state -/
@@ -274,6 +288,27 @@ theorem I1_step (s : State) (a : Step) (h : I1 s) : I1 (step s a) := by
     split
     · exact h
     · exact h
+  | reorder l fd =>
+    simp only [step]
+    split
+    · rename_i x hx
+      split
+      · rename_i hm
+        obtain ⟨A, B, A', B', hp, hr, hy⟩ := I1_setLoop_cases s l x hx
+        obtain ⟨h1, h2⟩ := h
+        simp only [obs, hp, hr] at h1 h2
+        have hc := fun a => (pendingOf_reorder x fd hm).count_eq a
+        refine ⟨?_, ?_⟩
+        · intro a
+          have := h1 a
+          simp only [obs, pending, registered, setLoop, hy, List.count_append, hc] at this ⊢
+          omega
+        · intro a
+          have := h2 a
+          simp only [obs, pending, registered, setLoop, hy, List.count_append] at this ⊢
+          omega
+      · exact h
+    · exact h
 
 /-! ### I2 -/
 
@@ -357,6 +392,20 @@ theorem I2_step (s : State) (a : Step) (h : I2 s) : I2 (step s a) := by
     split
     · exact h
     · exact h
+  | reorder l fd =>
+    simp only [step]
+    split
+    · rename_i x hx
+      split
+      · rename_i hm
+        refine I2_set s l _ h (fun hr => ?_)
+        have h2 := h x (List.mem_of_getElem? hx) hr
+        refine ⟨?_, h2.2⟩
+        have hp := pendingOf_reorder x fd hm
+        rw [h2.1] at hp
+        exact hp.eq_nil
+      · exact h
+    · exact h
 
 /-! ### I3 -/
 
@@ -423,6 +472,13 @@ theorem I3_step (s : State) (a : Step) (h : I3 s) : I3 (step s a) := by
     simp only [step]
     split
     · exact h
+    · exact h
+  | reorder l fd =>
+    simp only [step]
+    split
+    · split
+      · exact h
+      · exact h
     · exact h
 
 /-! ### I4 -/
@@ -527,6 +583,16 @@ theorem I4_step (s : State) (a : Step) (h : I4 s) : I4 (step s a) := by
     split
     · exact h
     · exact h
+  | reorder l fd =>
+    simp only [step]
+    split
+    · rename_i x hx
+      split
+      · rename_i hm
+        exact I4_set s l _ s.assigned h (fun p hp => hp)
+          (fun fd' hfd' => h l x hx fd' (mem_reorder x.queue fd hm _ hfd'))
+      · exact h
+    · exact h
 
 /-! ### I5 -/
 
@@ -600,6 +666,13 @@ theorem I5_step (s : State) (a : Step) (h4 : I4 s) (h : I5 s) : I5 (step s a) :=
     simp only [step]
     split
     · exact h
+    · exact h
+  | reorder l fd =>
+    simp only [step]
+    split
+    · split
+      · exact h
+      · exact h
     · exact h
 
 /-! ## the invariant holds in every reachable state -/
@@ -719,7 +792,8 @@ theorem pending_final (s : State) (hi : Inv s) (hf : Final s = true) : pending s
 /-! ## enrolments and their results -/
 
 /-- what a step does to the pending descriptors, the enrolments and the results: nothing, or a fresh
-descriptor is queued (possibly enrolled), or a queued descriptor is registered (and answered if enrolled) -/
+descriptor is queued (possibly enrolled), or a queued descriptor is registered (and answered if enrolled), ...,
+or (`reorder`) the pending descriptors are permuted -/
 theorem step_cases (s : State) (a : Step) :
     (pending (step s a) = pending s ∧ (step s a).results = s.results ∧ (step s a).enrolled = s.enrolled ∧
       (step s a).nextFd = s.nextFd) ∨
@@ -734,7 +808,9 @@ theorem step_cases (s : State) (a : Step) :
        ((step s a).results = s.results ++ [s.nextFd] ∧ (step s a).enrolled = s.enrolled ++ [s.nextFd]))) ∨
     (∃ A M B, pending s = A ++ M ++ B ∧ pending (step s a) = A ++ B ∧ (step s a).nextFd = s.nextFd ∧
       (step s a).enrolled = s.enrolled ∧
-      (step s a).results = s.results ++ M.filter (· ∈ s.enrolled)) := by
+      (step s a).results = s.results ++ M.filter (· ∈ s.enrolled)) ∨
+    ((pending (step s a)).Perm (pending s) ∧ (step s a).results = s.results ∧ (step s a).enrolled = s.enrolled ∧
+      (step s a).nextFd = s.nextFd) := by
   cases a with
   | accept l =>
     simp only [step]
@@ -776,7 +852,7 @@ theorem step_cases (s : State) (a : Step) :
         · rename_i q hq
           obtain ⟨A, B, _, _, e1, _, e3, _, _, e6, _⟩ :=
             exitLoop_spec s l x _ hx (pendingOf_pop_sentinel x q x.running x.conns hq).symm rfl
-          exact Or.inr (Or.inr (Or.inr (Or.inr ⟨A, pendingOf x, B, e1, e3, rfl, rfl, e6⟩)))
+          exact Or.inr (Or.inr (Or.inr (Or.inr (Or.inl ⟨A, pendingOf x, B, e1, e3, rfl, rfl, e6⟩))))
         · exact Or.inl ⟨rfl, rfl, rfl, rfl⟩
       · exact Or.inl ⟨rfl, rfl, rfl, rfl⟩
     · exact Or.inl ⟨rfl, rfl, rfl, rfl⟩
@@ -786,7 +862,7 @@ theorem step_cases (s : State) (a : Step) :
     · rename_i x hx
       split
       · obtain ⟨A, B, _, _, e1, _, e3, _, _, e6, _⟩ := exitLoop_spec s l x x hx rfl rfl
-        exact Or.inr (Or.inr (Or.inr (Or.inr ⟨A, pendingOf x, B, e1, e3, rfl, rfl, e6⟩)))
+        exact Or.inr (Or.inr (Or.inr (Or.inr (Or.inl ⟨A, pendingOf x, B, e1, e3, rfl, rfl, e6⟩))))
       · exact Or.inl ⟨rfl, rfl, rfl, rfl⟩
     · exact Or.inl ⟨rfl, rfl, rfl, rfl⟩
   | peerClose l fd =>
@@ -821,6 +897,19 @@ theorem step_cases (s : State) (a : Step) :
     split
     · exact Or.inl ⟨rfl, rfl, rfl, rfl⟩
     · exact Or.inl ⟨rfl, rfl, rfl, rfl⟩
+  | reorder l fd =>
+    simp only [step]
+    split
+    · rename_i x hx
+      split
+      · rename_i hm
+        obtain ⟨A, B, A', B', hp, hr, hy⟩ := I1_setLoop_cases s l x hx
+        refine Or.inr (Or.inr (Or.inr (Or.inr (Or.inr ⟨?_, rfl, rfl, rfl⟩))))
+        rw [hp]
+        simp only [pending, setLoop, hy]
+        exact ((pendingOf_reorder x fd hm).append_left A).append_right B
+      · exact Or.inl ⟨rfl, rfl, rfl, rfl⟩
+    · exact Or.inl ⟨rfl, rfl, rfl, rfl⟩
 
 /-- enrolled descriptors were created, once each; results are only given to enrolled descriptors; and an
 enrolled descriptor is either answered (once) or still pending (once) -/
@@ -842,7 +931,7 @@ theorem count_singleton_ne {a b : Nat} (h : b ≠ a) : List.count a [b] = 0 := b
 theorem J_step (s : State) (a : Step) (h1 : I1 s) (h : J s) : J (step s a) := by
   obtain ⟨j1, j2, j3, j4⟩ := h
   rcases step_cases s a with ⟨hp, hr, he, hn⟩ | ⟨A, B, hp, hp', hn, hr, he⟩ | ⟨A, B, fd, hp, hp', hn, he, hr⟩ |
-    ⟨hp, hn, hre⟩ | ⟨A, M, B, hp, hp', hn, he, hr⟩
+    ⟨hp, hn, hre⟩ | ⟨A, M, B, hp, hp', hn, he, hr⟩ | ⟨hp, hr, he, hn⟩
   · unfold J
     rw [hp, hr, he, hn]
     exact ⟨j1, j2, j3, j4⟩
@@ -956,6 +1045,12 @@ theorem J_step (s : State) (a : Step) (h1 : I1 s) (h : J s) : J (step s a) := by
         List.count_filter (by simpa using ha)
       simp only [List.count_append, hc] at h4 ⊢
       omega
+  · -- the pending descriptors are permuted
+    unfold J
+    rw [hr, he, hn]
+    refine ⟨j1, j2, j3, fun a ha => ?_⟩
+    rw [hp.count_eq a]
+    exact j4 a ha
 
 theorem J_init (n : Nat) : J (init n) := by
   refine ⟨?_, ?_, ?_, ?_⟩
@@ -1221,6 +1316,13 @@ theorem K_step (s : State) (a : Step) (h1 : I1 s) (h : K s) : K (step s a) := by
     simp only [step]
     split
     · exact h
+    · exact h
+  | reorder l fd =>
+    simp only [step]
+    split
+    · split
+      · exact h
+      · exact h
     · exact h
 
 theorem K_init (n : Nat) : K (init n) :=
